@@ -13,7 +13,7 @@ KINDS = {
     "C02": {"dup_commit", "order", "offset_order", "commit_of_dropped", "unaccounted", "dropped_and_committed",
             "drop_of_finished", "not_idle"},
     "C05": {"over_capacity", "double_owner", "inuse_over_capacity", "inuse_negative", "inuse_not_zero_at_idle",
-            "waiters_not_zero_at_idle", "leaked"},
+            "waiters_not_zero_at_idle", "leaked", "inuse_stuck_after_quiet_period"},
     "C08": {"batch_too_big", "batch_commit_order", "commit_before_send_return", "batch_commit_twice",
             "resend_after_done", "added_not_committed_once", "batch_bytes_exceeded", "batch_stale", "parent_sent",
             "not_idle", "unaccounted"},       # an added event that is never committed
@@ -52,7 +52,8 @@ def random_scenarios(ctx, n, family, start_run=1):
                       workers=rng.choice([1, 2, 3, 4]), batch=rng.choice([1, 2, 3]), single=rng.random() < 0.15,
                       lines=random_lines(rng, nev, rng.choice([1, 1, 2, 3]), rng.choice([["a"], ["a", "b"], ["a", "b", "c"]]),
                                          rng.choice([["P"], ["P", "D"], ["P", "D", "B"], ["P", "P", "D", "H", "C", "C"],
-                                                     ["P", "D", "R", "E"], ["P", "S", "D"], ["P", "S"], ["P", "G", "C", "Q", "H"], ["G", "P", "Q"]])))
+                                                     ["P", "D", "R", "E"], ["P", "S", "D"], ["P", "S"], ["P", "G", "C", "Q", "H"], ["G", "P", "Q"],
+                                                     ["H", "N", "C"], ["P", "H", "N", "N"]])))
         elif family == "retry":       # C09: failures, with/without dead queue
             retry = rng.choice([0, 1, 2])
             sc = base(run, cap=rng.choice([4, 16]), workers=rng.choice([1, 2, 3]), batch=rng.choice([1, 2, 3]),
